@@ -156,3 +156,59 @@ Definition debounce_step (period : Z) : rstep := fun st inp =>
       ([cnt'; out'], Ok [obit (out' =? 1)])
   | _, _ => (st, Err ETypeError)
   end.
+
+(** ** C14: a Fifo whose producer and consumer sit in different contexts (delays configured),
+    as a safety monitor.  The wrapper raises [pushed] in a clock in which it accepted a push of
+    [din] (it only pushes when it observes not-full) and [popped] in a clock in which it popped
+    into [dout] (only when it observes not-empty).
+    monitor state: [wait_push; wait_pop] ++ queue (oldest first)
+    inputs [push; pop; din]   outputs [pushed; popped; dout]
+    rules: elements leave in exactly the order they entered, unmodified, none lost or duplicated;
+    a pop never happens on an empty queue; the queue never holds more than [cap-1] elements;
+    nothing happens unasked; bounded response: a requested push (pop) is served within K clocks
+    while the queue is not full (not empty). *)
+Definition fifo_monitor (cap : nat) (K : Z) : list Z -> list value -> list value -> list Z * bool := fun st inp outs =>
+  match st, inp, outs with
+  | wpu :: wpo :: q, [push; pop; din], [pushed; popped; dout] =>
+      let bad_pop := vbit popped && match q with [] => true | x :: _ => negb (x =? vnum dout) end in
+      let q1 := if vbit popped then tl q else q in
+      let q2 := if vbit pushed then q1 ++ [vnum din] else q1 in
+      let over := Nat.ltb (cap - 1) (length q2) in
+      let unasked := (vbit pushed && negb (vbit push)) || (vbit popped && negb (vbit pop)) in
+      let wpu' := if vbit pushed then 0 else if vbit push && Nat.ltb (length q) (cap - 1) then wpu + 1 else 0 in
+      let wpo' := if vbit popped then 0 else if vbit pop && negb (is_nil q) then wpo + 1 else 0 in
+      (wpu' :: wpo' :: q2, negb bad_pop && negb over && negb unasked && (wpu' <=? K) && (wpo' <=? K))
+  | _, _, _ => (st, false)
+  end.
+
+(** ToggleSignal with run-time durations (inputs [first; second], first + second >= 1):
+    the counter runs 0 .. first+second-1 (it wraps as soon as it has reached or passed the current
+    end), [state] is [first_state] while the counter is below [first].
+    state [c; s]   outputs [state; rising; falling] *)
+Definition toggle_rt_step (default_state first_state : bool) : rstep := fun st inp =>
+  match st, inp with
+  | [c; s], [f; g] =>
+      let e := vnum f + vnum g - 1 in
+      let c' := if e <=? c then 0 else c + 1 in
+      let s' := if c' <? vnum f then first_state else negb first_state in
+      let sb := (s =? 1) in
+      ([c'; zb s'], Ok [obit s'; obit (negb sb && s'); obit (sb && negb s')])
+  | _, _ => (st, Err ETypeError)
+  end.
+Definition toggle_rt_assume : list Z -> list value -> bool := fun _ inp =>
+  match inp with [f; g] => 1 <=? vnum f + vnum g | _ => false end.
+
+(** ClockDivider with a run-time period (input [p], p >= 1): counter 0 .. p-1 (wraps when it has
+    reached or passed the current end), [state] high exactly in the step where the counter is 0.
+    state [c; s]  outputs [state; rising] *)
+Definition divider_rt_step : rstep := fun st inp =>
+  match st, inp with
+  | [c; s], [p] =>
+      let e := vnum p - 1 in
+      let c' := if e <=? c then 0 else c + 1 in
+      let s' := (c' =? 0) in
+      ([c'; zb s'], Ok [obit s'; obit (negb (s =? 1) && s')])
+  | _, _ => (st, Err ETypeError)
+  end.
+Definition divider_rt_assume : list Z -> list value -> bool := fun _ inp =>
+  match inp with [p] => 1 <=? vnum p | _ => false end.
